@@ -303,6 +303,14 @@ theorem no_step (c : Cfg) (hr : c.fixResub = true) (s : St) (e : Ev) (h : NoOrph
       exact no_onReq c hr _ p r (no_updObj s p _ h rfl (fun _ => Or.inr rfl)) (live_of_rel ht (invA_touch s p hG.a) hl)
     · exact h
   | appSet x v => exact no_writeVal c s x v none h
+  | appSetWorker x v =>
+    simp only [step, appSetWorker]
+    split <;> exact h
+  | handOff =>
+    simp only [step, handOff]
+    split
+    · exact h
+    · exact no_publish c _ _ _ none h
   | timerFire p =>
     simp only [step]; split
     · exact no_sendEvents s p h
